@@ -45,6 +45,18 @@ def make_exc(name):
 
 
 def run_scenario(sc, fault, env, res):
+    """(see _run_scenario) -- optionally with the whole scenario taking place while an
+    unrelated exception is being handled (a fall-back inside an ``except`` block, a
+    clean-up during unwinding): that exception is none of the operation's business."""
+    if sc.get("in_handler"):
+        try:
+            raise LookupError("unrelated; being handled while the scenario runs")
+        except LookupError:
+            return _run_scenario(sc, fault, env, res)
+    return _run_scenario(sc, fault, env, res)
+
+
+def _run_scenario(sc, fault, env, res):
     """fault = None | (k, excname) | ("size", excname) | ("too-small",).
     Returns (error message or None, number of _render_ calls)."""
     from term_image.geometry import Size
@@ -303,6 +315,8 @@ def gen_scenario(rnd):
     if kind in ("iter_full", "iter_close", "iter_seek", "iter_drop") and rnd.random() < 0.5:
         sc["resize_at"] = rnd.randint(1, 9)
         sc["size2"] = [rnd.randint(1, 4), rnd.randint(1, 3)]
+    if rnd.random() < 0.25:
+        sc["in_handler"] = True
     if kind == "two_iters":
         sc["modes"] = [rnd.choice(["keep", "own", "ctor", "draw"]) for _ in range(rnd.randint(2, 3))]
         sc["end_order"] = rnd.sample(range(3), 3)
